@@ -196,6 +196,56 @@ def observe(form, t, rng, hdrs=None, method="GET", ver=11, vary=False):
                 "RAW_URI": env.get("RAW_URI"), "vars": {k: env[k] for k in env if k.startswith("HTTP_X")}}
 
 
+def real_script_name():
+    """SCRIPT_NAME "as configured" on a real server: set through raw_env, then taken out of the configuration and the
+    master reloaded (HUP): the workers of the new generation split PATH_INFO from the SCRIPT_NAME configured NOW.
+    -> traces for EnvironTrace (form mount / origin with the observed split)"""
+    import signal
+    import time
+    from drivers import realproc as rp
+    s = rp.Server("sync", workers=1, config='raw_env = ["SCRIPT_NAME=/m"]\n', name="c15")
+    out = []
+    try:
+        s.env.pop("SCRIPT_NAME", None)
+        s.probe = "/m/pid"
+        s.start()
+        first = s.wait_booted(1)
+
+        def probe(form):
+            st, body, info = s.get("/m/x%41?envdump=1", timeout=5)
+            txt = body.decode("latin-1")
+            sn = txt.split("SN=")[1].split("|")[0] if "SN=" in txt else "?"
+            pi = txt.split("PI=")[1].split("|")[0] if "PI=" in txt else "?"
+            # target symbols: form mount = "/m/" + <a pct_ascii q a...>; as origin form the same bytes are "/" + <a / a pct_ascii ...>
+            if form == "mount":
+                t = ["a", "pct_ascii", "q", "a"]
+                path_tokens = ["/", "a", "A"] if pi == "/xA" else ["x-unexpected"]
+                query = ["a"]
+            else:
+                t = ["a", "/", "a", "pct_ascii", "q", "a"]
+                path_tokens = ["/", "a", "/", "a", "A"] if pi == "/m/xA" else ["x-unexpected"]
+                query = ["a"]
+            obs = {"raw_ok": True, "method_ok": True, "proto_ok": True, "script": len(sn), "path": path_tokens, "query": query,
+                   "vars": [], "ct_ok": True}
+            return {"form": form, "t": t, "hdrs": [], "obs": obs}, {"request": "GET /m/x%41?envdump=1 (real server, " + form + ")",
+                                                                   "PATH_INFO": pi, "QUERY_STRING": "envdump=1", "SCRIPT_NAME": sn,
+                                                                   "RAW_URI": "/m/x%41?envdump=1", "vars": {}}
+        out.append(probe("mount"))
+        s.rewrite_config("")
+        s.signal(signal.SIGHUP)
+        deadline = time.time() + 8
+        while time.time() < deadline:
+            live = [p for p in s.booted() if p in s.workers() and p not in first]
+            if live and not [p for p in first if rp.proc_state(p) not in (None, "Z")]:
+                break
+            time.sleep(0.1)
+        time.sleep(0.3)
+        out.append(probe("origin"))
+    finally:
+        s.cleanup()
+    return out
+
+
 def c15(ctx):
     rng = ctx.rng
     maxlen = 3 if ctx.quick else 4
@@ -233,6 +283,9 @@ def c15(ctx):
         add(form, t, hdrs=hdrs, method=rng.choice(["GET", "POST", "DELETE", "OPTIONS", "M-SEARCH", "PATCH"]),
             ver=rng.choice([10, 11, 11, 12, 15, 19]), vary=True)
     add("star", [], method="OPTIONS")
+    for tr, m in real_script_name():
+        traces.append(tr)
+        metas.append(m)
     ctx.coverage["rejected_by_parser"] = nrej
     verdicts, stats = tlc.validate_batch("EnvironTrace", "EnvironTrace.cfg", traces, name="EnvironTrace_C15", chunk=6000)
     ctx.add_traces(len(traces), stats)
